@@ -20,6 +20,7 @@ EXPLANATION = (
     "true' scans exactly the heads whose weights were summed (the head being added and the heads already in the group); W8 in propagate the current value of a child literal c is current.get(abs(c), abs(c)), negated "
     "when c is negative (folded for a positive and a negative literal: the key is the node id, an undetermined child stands for the literal itself)."
     " Added after seed round 6: W9 a waiting parent is re-queued by LogicFormula.propagate with its own recorded value (table over current[parent])."
+    " Added after seed round 9: W2's sign domain also folds is_probabilistic / is_true / is_false of the node; W7 reads comprehension generators over self.nodes."
 )
 TECHNIQUE = "static analysis: path-wise decision-table extraction of the option/evidence wiring"
 LEVEL_TEXT = EXPLANATION
@@ -124,6 +125,13 @@ def _atom(src, scen, node, tgt):
         return sg < 0 if isinstance(e.ops[0], ast.Lt) else sg > 0
     if isinstance(e, ast.Compare) and len(e.ops) == 1 and isinstance(e.ops[0], ast.Is) and isinstance(e.comparators[0], ast.Constant) and e.comparators[0].value is None:
         _sym(e.left, scen, node, tgt)
+        return False
+    # the scenario node is a probabilistic node (not TRUE / FALSE)
+    if isinstance(e, ast.Call) and isinstance(e.func, ast.Attribute) and e.func.attr == "is_probabilistic" and len(e.args) == 1:
+        _sym(e.args[0], scen, node, tgt)
+        return True
+    if isinstance(e, ast.Call) and isinstance(e.func, ast.Attribute) and e.func.attr in ("is_true", "is_false") and len(e.args) == 1:
+        _sym(e.args[0], scen, node, tgt)
         return False
     # truthiness of a node expression: probabilistic nodes are non-zero
     v = _sym(e, scen, node, tgt)
@@ -441,6 +449,9 @@ def rule_w7(repo, col):
             cur = parents.get(expr)
             while cur is not None and cur is not f.node:
                 if isinstance(cur, ast.For) and isinstance(cur.target, ast.Name) and cur.target.id == expr.id and norm(cur.iter) == "self.nodes":
+                    return "the heads already in the group"
+                if isinstance(cur, (ast.ListComp, ast.SetComp, ast.GeneratorExp)) and any(
+                        isinstance(g.target, ast.Name) and g.target.id == expr.id and norm(g.iter) == "self.nodes" for g in cur.generators):
                     return "the heads already in the group"
                 cur = parents.get(cur)
         return None
